@@ -59,7 +59,9 @@ def run(ctx: Ctx):
 
     def conv_label(c, s):
         try:
-            return c.convert_label(s).label.value
+            lab = c.convert_label(s).label
+            # the label must be a member of the chosen family (the two families share value strings such as "unknown")
+            return lab.value if isinstance(lab, c.label_type) else "other-family:%s" % lab.value
         except Exception as ex:
             return "raised"
 
@@ -81,7 +83,8 @@ def run(ctx: Ctx):
             names = list(dict.fromkeys(registered + doc + members + rand))
             for n in names:
                 try:
-                    via = conv.convert_name(n).value
+                    via = conv.convert_name(n)
+                    via = via.value if isinstance(via, conv.label_type) else "other-family:%s" % via.value
                 except Exception:
                     via = "raised"
                 add(dict(ev="Convert", **base, name=b(n), registered=1 if n.lower() in registered else 0, label=conv_label(conv, n),
@@ -100,7 +103,7 @@ def run(ctx: Ctx):
             # target lists
             for tl in ([], registered[:3], [n.upper() for n in registered[-3:]], ["car", "Pedestrian", "nonsense"], rng.sample(registered, min(5, len(registered)))):
                 try:
-                    res_ = [x.value for x in set_target_lists(tl, conv)]
+                    res_ = [x.value if isinstance(x, conv.label_type) else "other-family:%s" % x.value for x in set_target_lists(tl, conv)]
                 except Exception:
                     res_ = ["raised"]
                 add(dict(ev="Targets", **base, names=[b(x) for x in tl], resolved=res_, each=[conv_label(conv, x) for x in tl], all_members=members),
